@@ -155,6 +155,25 @@ def check_tftt(ctx):
             got = model.transfer_func_to_timetraces(tf[0], delays[0], out_time, tt_time, freqs, tbf, t0idx)
         else:
             got = model.transfer_func_to_timetraces(tf, delays, out_time, tt_time, freqs, tbf, t0idx)
+        # accumulation into a buffer the caller provides (several views / batches of scatterers summed into one frame), through
+        # the function and through its former name `transfer_func_to_scanlines` (kept as a deprecated alias): previous content + echoes
+        import warnings
+        prev = (rng.normal(size=got.shape) + 1j * rng.normal(size=got.shape)).astype(np.complex128)
+        for door in ("transfer_func_to_timetraces", "transfer_func_to_scanlines"):
+            buf = prev.copy()
+            with warnings.catch_warnings():
+                warnings.simplefilter("ignore")
+                try:
+                    ret = getattr(model, door)(tf, delays, out_time, tt_time, freqs, tbf, t0idx, buf)
+                except Exception as e:
+                    ctx.violate(f"{door} with an output buffer raised {type(e).__name__}: {str(e)[:80]}", {"op": door, "dt": dt, "nout": nout}, {"kind": "buffer_door"})
+                    continue
+            ctx.count("buffer_door:" + door)
+            okb = np.allclose(buf, prev + got, rtol=1e-12, atol=1e-12 * np.abs(got).max()) and np.allclose(np.asarray(ret), prev + got, rtol=1e-12, atol=1e-12 * np.abs(got).max())
+            if not okb:
+                ctx.violate(f"{door}(..., timetraces=buffer): the buffer / the returned array do not hold the previous content plus the synthesised echoes "
+                            f"(max deviation {max(np.abs(buf - prev - got).max(), np.abs(np.asarray(ret) - prev - got).max()):.3e})",
+                            {"op": door, "dt": dt, "f": f, "nout": nout, "delays": delays.tolist()}, {"kind": "buffer_door"})
         cj = {"op": "transfer_func_to_timetraces", "dt": dt, "f": f, "cycles": cycles, "t0out": t0out, "nout": nout, "ntone": ntone, "t0idx": int(t0idx),
               "delays": delays.tolist(), "multi_freq": multi, "tf_re": tf.real.tolist(), "tf_im": tf.imag.tolist()}
         ctx.case(("tftt", dt, f, delays.tobytes(), tf.tobytes()), True, sample={k_: cj[k_] for k_ in ("dt", "f", "cycles", "nout", "ntone", "multi_freq")} if len(ctx.samples) < 4 else None)
